@@ -37,7 +37,7 @@ import (
 const prop = "C14"
 
 var rejectRules = []string{"syntax", "aead", "inner-syntax", "empty", "nil-keydata", "unknown-status", "unknown-prefix", "duplicate-id",
-	"no-enabled-primary", "has-secrets", "key-parse", "read-error"}
+	"no-enabled-primary", "has-secrets", "prefix-type-5", "key-parse", "read-error"}
 
 func TestMain(m *testing.M) {
 	faults := []string{fCut, fTornWrite, fWrongReader, "weak-key", "src-short-read", "src-zero-read", "src-eof-with-data", "src-read-error"}
@@ -150,6 +150,9 @@ type world struct {
 	weakExpect  string // set while a fault-free image with an ENABLED hand-built weak key is being read
 	weakClass   string // its primitive class
 	weakPrimary bool   // it is the keyset's primary (producing primitives use the primary only)
+	weakID      uint32 // its key ID
+	// weakArrange makes a valid input for the verifier of a hand-built weak PUBLIC key (the harness holds the private half)
+	weakArrange func(msg []byte) ([]byte, error)
 	idCtr       uint64
 
 	header       []string // trace lines of the shared set-up, repeated in the trace of every experiment
@@ -166,6 +169,7 @@ type built struct {
 	// weak mode
 	weakKeyName string
 	weakID      uint32
+	weakArrange func(msg []byte) ([]byte, error)
 }
 
 // weakEnabled: the hand-built weak key sits in the keyset as an ENABLED key.
@@ -234,6 +238,9 @@ func (w *world) buildWeak() (*built, string) {
 	at := rapid.IntRange(0, len(ks.Key)).Draw(t, "weakAt")
 	ks.Key = append(ks.Key[:at:at], append([]*tinkpb.Keyset_Key{wkKey}, ks.Key[at:]...)...)
 	w.statusMix(ks, "weak")
+	if wk.sign != nil {
+		b.weakArrange = arranged(wk, wkKey.OutputPrefixType, b.weakID)
+	}
 	b.keyTypes = append(b.keyTypes, "weak:"+name)
 	b.ks = ks
 	w.r.Logf("  weak key %s (%s) at index %d of %d, status %v", name, wk.rule, at, len(ks.Key), wkKey.Status)
@@ -337,7 +344,9 @@ func (w *world) buildKeyset(label string, maxKeys int, fixedClass string) *built
 	}
 	ks := insecurecleartextkeyset.KeysetMaterial(h0)
 	if ks == nil {
-		// the handle tink just handed out cannot be exported; its accessors are the next thing a caller would use
+		// The handle the manager just handed out cannot be exported. This handle did not come from a reader, so C14
+		// says nothing about it; the guard is kept only because it is the one place where an accepted-looking handle
+		// that cannot be exported is noticed at all (a panic here cannot come from a correct library).
 		w.guard("accessors-of-built-handle", func() { _ = h0.KeysetInfo(); _ = h0.String() })
 		core.CountGlobal("built-handle-not-exportable")
 		t.Skip("built handle cannot be exported")
@@ -378,7 +387,8 @@ func (w *world) buildKeyset(label string, maxKeys int, fixedClass string) *built
 	}
 	// this read of an in-memory Keyset message is itself a reader call under C14
 	if sh := w.wellFormed(h, "in-memory keyset ("+label+")"); sh != nil && sh.n != len(ks.Key) {
-		w.r.Violation("C14/handle-drops-keys", fmt.Sprintf("in-memory keyset holds %d keys, the accepted handle %d", len(ks.Key), sh.n))
+		// a reader that leaves keys out still returns "a handle that has at least one key, distinct IDs, …"
+		w.r.Probe("handle-has-fewer-keys-than-image")
 	}
 	if w.cfg.prot == "public" {
 		var hp *keyset.Handle
@@ -480,7 +490,8 @@ func (w *world) store(b *built, direct bool, failAt int) ([]byte, error) {
 	return dev.Buf, err
 }
 
-func (w *world) drawSrc(n int) srcCfg {
+func (w *world) drawSrc(img []byte) srcCfg {
+	n := len(img)
 	t := w.t
 	sc := srcCfg{failAt: -1}
 	if rapid.IntRange(0, 2).Draw(t, "srcPlain") == 0 {
@@ -490,7 +501,13 @@ func (w *world) drawSrc(n int) srcCfg {
 	sc.zeroBudget = rapid.IntRange(0, 3).Draw(t, "srcZero")
 	sc.eofWithData = rapid.Bool().Draw(t, "srcEOFWithData")
 	if rapid.IntRange(0, 7).Draw(t, "srcFail") == 7 {
-		sc.failAt = rapid.IntRange(0, n).Draw(t, "srcFailAt")
+		// where the read error hits: a top-level / second-level field boundary (the delivered prefix may parse), or anywhere up to the end
+		bs := walk(w.cfg.format, w.cfg.prot == "encrypted", img).boundsUpTo(2)
+		if len(bs) > 0 && rapid.Bool().Draw(t, "srcFailAtBoundary") {
+			sc.failAt = bs[rapid.IntRange(0, len(bs)-1).Draw(t, "srcFailBound")]
+		} else {
+			sc.failAt = rapid.IntRange(0, n).Draw(t, "srcFailAt")
+		}
 	}
 	return sc
 }
@@ -551,7 +568,7 @@ func (w *world) classify(img []byte, prot string) (rules []string, nKeys int) {
 		return []string{"empty"}, 0
 	}
 	seen := map[uint32]bool{}
-	dup, enabledPrimary, unkStatus, unkPrefix, nilData, secrets := false, false, false, false, false, false
+	dup, enabledPrimary, unkStatus, unkPrefix, nilData, secrets, prefix5 := false, false, false, false, false, false, false
 	for _, k := range ks.Key {
 		if k == nil || k.KeyData == nil {
 			nilData = true
@@ -563,6 +580,9 @@ func (w *world) classify(img []byte, prot string) (rules []string, nKeys int) {
 		}
 		switch k.GetOutputPrefixType() {
 		case tinkpb.OutputPrefixType_TINK, tinkpb.OutputPrefixType_LEGACY, tinkpb.OutputPrefixType_RAW, tinkpb.OutputPrefixType_CRUNCHY:
+		case tinkpb.OutputPrefixType_WITH_ID_REQUIREMENT:
+			// a declared enum value (tink's ML-DSA serializer emits it): a reader may know it or not — either outcome is fine
+			prefix5 = true
 		default:
 			unkPrefix = true
 		}
@@ -595,6 +615,9 @@ func (w *world) classify(img []byte, prot string) (rules []string, nKeys int) {
 	}
 	if prot == "public" && secrets {
 		rules = append(rules, "has-secrets")
+	}
+	if prefix5 {
+		rules = append(rules, "prefix-type-5")
 	}
 	return rules, nKeys
 }
@@ -640,6 +663,7 @@ func (w *world) sameAs(a, b *shape) bool {
 	return same
 }
 
+// keyEqual calls Equal on a, which is always the key taken from the accepted handle.
 func keyEqual(a, b key.Key) bool { return a != nil && b != nil && a.Equal(b) }
 
 // check reads one image back and applies the oracle. It returns the outcome class.
@@ -662,7 +686,8 @@ func (w *world) check(img []byte, readProt string, sc srcCfg, orig *shape, writt
 	r.ObsI("image-len", int64(len(img)))
 	if err != nil {
 		if h != nil {
-			r.Violation("C14/handle-and-error", fmt.Sprintf("%s: the reader returned an error (%v) together with a handle", ctx, err))
+			// by Go convention the handle is ignored when err != nil; C14 does not forbid returning both
+			r.Probe("handle-returned-together-with-error")
 		}
 		rule := "key-parse"
 		if src.Failed {
@@ -679,7 +704,11 @@ func (w *world) check(img []byte, readProt string, sc srcCfg, orig *shape, writt
 		return "rejected:" + rule
 	}
 	// accepted
-	if src.Failed {
+	if src.Failed && src.FailAt >= len(img) {
+		// the error came after the complete image had been delivered: a reader that already holds the whole value conforms
+		r.Probe("handle-after-error-past-the-end")
+	}
+	if src.Failed && src.FailAt < len(img) {
 		r.Violation("C14/handle-from-failed-read", fmt.Sprintf("%s: the source failed persistently at offset %d of %d, yet the reader returned a handle", ctx, src.FailAt, len(img)))
 	}
 	for _, rule := range rules {
@@ -696,7 +725,8 @@ func (w *world) check(img []byte, readProt string, sc srcCfg, orig *shape, writt
 		// the harness's own strict parse fails where the reader succeeded: a more lenient reader is not forbidden
 		r.Probe("accepted-where-strict-parse-fails")
 	} else if sh.n != nImg {
-		r.Violation("C14/handle-drops-keys", fmt.Sprintf("%s: the stored keyset holds %d keys, the accepted handle %d", ctx, nImg, sh.n))
+		// leaving keys out (DESTROYED ones, unparseable ones) still gives "a handle that has at least one key, distinct IDs, …"
+		r.Probe("handle-has-fewer-keys-than-image")
 	}
 	outcome := "accepted"
 	switch {
@@ -737,9 +767,11 @@ func (w *world) check(img []byte, readProt string, sc srcCfg, orig *shape, writt
 	return outcome
 }
 
-// restore writes an accepted handle out again through the real writers (to a
-// scratch device): an accepted handle is "well-formed" only if the library
-// can handle it; errors are fine, a panic is not.
+// restore writes a handle a READER accepted out again through the real writers
+// (to a scratch device). This is a use beyond "creating and using a primitive":
+// errors are fine and nothing about the result is asserted; only a panic is
+// reported (it cannot come from a correct library). h is always the handle the
+// reader under test just returned.
 func (w *world) restore(h *keyset.Handle) {
 	w.guard("rewrite-accepted-handle", func() {
 		wr := w.writer(simio.NewDevice(-1, false))
@@ -753,7 +785,9 @@ func (w *world) restore(h *keyset.Handle) {
 // changedKeys: the keyset-level primitive only produces with the primary; an
 // ENABLED non-primary key the fault has changed (it equals no key that was
 // written) is exercised as the only key of a handle of its own, built through
-// the public manager API from the accepted entry.
+// the public manager API from the accepted entry. Both guards here operate on
+// objects taken from the handle the reader accepted: Equal is called ON the
+// accepted key (k.Equal(written)), and the manager is given the accepted key.
 func (w *world) changedKeys(sh, orig *shape, ctx string) {
 	for i, k := range sh.keys {
 		if i == sh.primary || sh.statuses[i] != keyset.Enabled {
@@ -948,7 +982,7 @@ func (w *world) experiment(b *built, medium []byte, orig *shape) (string, bool) 
 	readProt := w.cfg.prot
 	var outcomes []string
 	if plan == "cut" {
-		sc := w.drawSrc(len(medium))
+		sc := w.drawSrc(medium)
 		cuts, cls := w.cutPoints(medium)
 		r.Fault(fCut)
 		acc := 0
@@ -1007,15 +1041,16 @@ func (w *world) experiment(b *built, medium []byte, orig *shape) (string, bool) 
 			r.Fault(fWrongReader)
 			orig = nil
 		}
-		sc := w.drawSrc(len(img))
+		sc := w.drawSrc(img)
 		faulted := len(fired) > 0 && plan != "weak"
 		if plan == "weak" && b.weakEnabled() {
 			w.weakExpect = b.weakKeyName
 			w.weakClass = b.classes[0]
 			w.weakPrimary = b.ks.PrimaryKeyId == b.weakID
+			w.weakID, w.weakArrange = b.weakID, b.weakArrange
 		}
 		o := w.check(img, readProt, sc, orig, written, faulted, "image")
-		w.weakExpect = ""
+		w.weakExpect, w.weakArrange = "", nil
 		outcomes = append(outcomes, o)
 		for _, a := range fired {
 			switch {
